@@ -20,7 +20,8 @@ DOC = {
  "C01.R3": "start: one pre_start race, not in a cycle, behind the `status != Unstarted -> Err` gate; the loop task is spawned only on the Ok(Ok(Ok(state))) edge",
  "C01.R4": "processing loop: post_start raced once, not in a cycle, before the message-loop future exists; set_status(Running) and the loop only after post_start's Ok edges (both `?`)",
  "C01.R5": "post_stop raced once, not in a cycle, only after the loop future completed, on the Ok edges of the loop result and on the false edge of its was_killed flag; the flag and exit test originate from the step result's fields",
- "C01.R7": "= C03.R1 + C03.R2: `post_stop never after a kill` needs the kill signal to outrank stop in the listen and the callback in the race (signal polled first, biased)",
+ "C01.R7": "= C03.R1 + C03.R2 + C03.R6: `post_stop never after a kill` needs the kill signal to outrank stop in the listen and the callback in the race (signal polled first, biased) and every kill() to be delivered whatever the status",
+ "C01.R8": "hook adapters (blanket `impl ThreadLocalActor for T: Actor`) delegate each hook to the same-named hook of the wrapped actor, once, unconditionally",
  "C01.R6": "Send and thread-local runtimes agree on the lifecycle skeleton (sibling cross-check)",
 }
 
@@ -32,6 +33,28 @@ def r1(run, db):
 def r7(run, db):
     c03.r1(run, db)
     c03.r2(run, db)
+    c03.r6(run, db)
+
+
+def r8(run, db):
+    """bodies that *implement* a hook of one actor trait by delegating to a hook of the other (the Send->thread-local adapter)
+    must delegate to the hook of the same name"""
+    m = model(db)
+    ff = m.ff()
+    n = 0
+    for c, h in ff.seed_calls:
+        if c.fn.id not in ff.exempt:
+            continue
+        root = db.root_of(c.fn)
+        ti = (root.raw.get("trait_item") or "").split("::")[-1] or root.id.split("::")[-1]
+        n += 1
+        run.saw(1, root)
+        run.check(h.split(".")[1] == ti, "adapter:%s" % root.id.split(" as ")[-1][:70], "%s delegates to the `%s` hook of the wrapped actor" % (root.id[:90], h.split(".")[1]),
+                  "the adapter's `%s` runs the wrapped actor's `%s`: lifecycle callbacks of adapted actors run in the wrong order / the wrong number of times" % (ti, h.split(".")[1]), c.where())
+        # exactly one delegation, unconditional
+        same = [x for x, hh in ff.seed_calls if x.fn.id == c.fn.id]
+        run.check(len(same) == 1 and c.fn.must_pass(c.fn.entry(), [c.site]) and not c.fn.in_cycle(c.site), "adapter-once:%s" % root.id.split(" as ")[-1][:70], "exactly one unconditional delegation", "adapter delegates %d times / conditionally" % len(same), c.where())
+    run.anchor("adapter hook bodies", n, 5)
 
 
 def r2(run, db):
@@ -283,5 +306,9 @@ RULES = [
     {"id": "C01.R4", "fn": r4, "quick": Q, "thorough": TH},
     {"id": "C01.R5", "fn": r5, "quick": Q, "thorough": TH},
     {"id": "C01.R6", "fn": r6, "quick": Q, "thorough": TH},
-    {"id": "C01.R7", "fn": r7, "quick": Q, "thorough": TH},
+    {"id": "C01.R7", "fn": r7, "quick": Q + ["astd"], "thorough": TH},
+    {"id": "C01.R8", "fn": r8, "quick": Q, "thorough": TH},
 ]
+from .positive import control
+RULES.append({"id": "C01.P", "fn": control('k14'), "quick": ["pos"], "thorough": ["pos"]})
+DOC["C01.P"] = 'positive control: planted tokio::spawn(actor.handle(..)) must be reported by the future-flow analysis as un-raced and uncontained'
